@@ -62,7 +62,7 @@ def floors(tier):
             'strict_equal_compared': 10000, 'prefix_rule_checked': 8000, 'recovery_exercised': 15000,
             'text_retention_checked': 20000, 'histkeys:truncation_tail': 9,
             'custom_context_soups': 500, 'parser_class_context_soups': 1000,
-            'parses_from_configured_state': 2000, 'stop_condition_entry_points': 3000, 'parser_class_truncations': 1000, 'k5_witness_checked': 1, 'prefix_cover_checked': 20000, 'configured_state_special_character_strings': 2000, 'histkeys:start_state': 17}
+            'parses_from_configured_state': 2000, 'stop_condition_entry_points': 3000, 'parser_class_truncations': 1000, 'k5_witness_checked': 1, 'prefix_cover_checked': 20000, 'closed_prefix_compared': 1000, 'configured_state_special_character_strings': 2000, 'histkeys:start_state': 17}
 
 
 WF_PARSER_CLASS_ATOMS = ['\\csl{WORD,WORD,WORD}', '\\csl{WORD, {WORD,WORD} ,WORD}', '\\chg{WORD{WORD}WORD}', '\\anyd(WORD)',
@@ -200,6 +200,36 @@ def check_case(case, rec):
                     return
                 cur = max(cur, n.pos_end)
             rec.monitor('prefix_cover_checked')
+            # ... and what was completely read before it is returned as it was read: the top-level nodes up to the last closed
+            # construct (group, formula, environment) that ends before the error are the strict parse of that part of the input
+            if 'dlen' not in case:
+                k = 0
+                cur = 0
+                for i, n in enumerate(nl):
+                    if n is None or not isinstance(getattr(n, 'pos', None), int) or not isinstance(getattr(n, 'pos_end', None), int) \
+                            or n.pos != cur or n.pos_end > strict_error_pos:
+                        break
+                    cur = n.pos_end
+                    if canon.kind(n) in ('group', 'math', 'environment'):
+                        k = i + 1
+                if k:
+                    D = s[:nl[k - 1].pos_end]
+                    try:
+                        dnl = parse(D, ctx=ctx, tolerant=False, psopts=psopts)
+                    except Exception:
+                        dnl = None
+                        rec.monitor('closed_prefix_rejected')
+                    if dnl is not None:
+                        rec.monitor('closed_prefix_compared')
+                        want, got = dump(dnl), dump(nl)[:k]
+                        if want != got:
+                            i = next((j for j in range(min(len(want), len(got))) if want[j] != got[j]), min(len(want), len(got)))
+                            rec.violation(case, 'content before the first error (at %d) was altered: the input up to %d parses in '
+                                          'strict mode to %s but tolerant parsing of the whole input starts with %s (first '
+                                          'difference at top-level node %d) | input %r' % (
+                                              strict_error_pos, len(D), canon.short(dnl)[:300], canon.short(nl[:k])[:300], i, s),
+                                          mech='prefix-altered')
+                            return
     if 'kept_text' in case:
         # text written before the cut must still be there: each plain-text piece of the valid prefix is
         # carried by chars nodes of the tolerant result at its own position
